@@ -215,6 +215,8 @@ package fiber
 //@   atcall Route.Handlers$elem: matched-flag: c.matched == (old(c.matched) || !route.use)
 //@   ensures no-match-is-an-error: !result0 ==> result1 != nil
 //@   ensures no-handler-no-match: !called(Route.Handlers$elem) ==> !result0
+//@   ensures [C08] error-is-returned-not-handled: !called((*App).ErrorHandler) && ehCalls == old(ehCalls)
+//@   ensures [C08] own-404-or-405: !result0 ==> typeis(result1, *Error) && (unbox(result1, *Error) == ErrMethodNotAllowed || unbox(result1, *Error).Code == StatusNotFound)
 
 // The same scan for custom contexts: all state is reached through the CustomCtx interface (assumed contracts:
 // accessor pairs over ghost maps; the detection path is the folded path).
@@ -273,6 +275,8 @@ package fiber
 //@   atcall Route.Handlers$elem: matched-flag: ciMatched[c] == (old(ciMatched)[c] || !route.use)
 //@   ensures no-match-is-an-error: !result0 ==> result1 != nil
 //@   ensures no-handler-no-match: !called(Route.Handlers$elem) ==> !result0
+//@   ensures [C08] error-is-returned-not-handled: !called((*App).ErrorHandler) && ehCalls == old(ehCalls)
+//@   ensures [C08] own-404-or-405: !result0 ==> typeis(result1, *Error) && (unbox(result1, *Error) == ErrMethodNotAllowed || unbox(result1, *Error).Code == StatusNotFound)
 
 // addRoute: a registration is merged into the previous route of the method's stack only when it has the same
 // registered path, the same kind (use/endpoint) and neither is a mount marker; otherwise it is appended with
